@@ -52,6 +52,14 @@ CLAIMS = {
             'the code by real ProcessSpec.expose_inputs/outputs on ~2k generated cases with prefix-sharing names (a/ab/abc).',
             'DESIGN.md section 4 C15', COMMON_NOTE + 'Independence of the copy (no shared objects) is outside the functional model: checked on the implementation by identity and mutate-and-compare probes in the oracle.',
             'Coq proof: string-level absorb = component-level selection + vm_compute correspondence'),
+    'C19': ('Machine-checked proof (Coq) over the model of Savable.save/load: for every class table (inheritance chains of auto_persist declarations), '
+            'every object (plain values, own bound methods, nested Savables to any depth, futures in the four states) and every loader configuration in '
+            'which the loading side resolves classes with the loader that saved (no load context => the loader recorded in the saved state, else the global '
+            'one; or the same loader), load(save(o)) is exactly the projection of o on its declared members; saving is defined exactly on savable objects; '
+            'another identifier scheme or an unloadable class is a ValueError, never an object; loader precedence context > recorded > global. Tied to the code '
+            'by creating real Savable class hierarchies per case (~870 per quick run) and comparing saved states and loaded objects.',
+            'DESIGN.md section 4 C19', COMMON_NOTE + 'copy.deepcopy faithful on plain data (hypothesis). "Copied at save time" is checked on the implementation by the oracle (the original is mutated after save; identity probes).',
+            'Coq proof: load(save o) = declared-member projection under compatible loaders + vm_compute correspondence'),
 }
 
 NOT_YET = 'check under construction in this build session (model/theorems not committed yet); see DESIGN.md section 4'
